@@ -169,6 +169,10 @@ def parseLens (s : String) : Option (List (Nat × Except Err Int)) :=
 
 def handle (args : List String) : String :=
   match args with
+  | ["effver", h, c] =>
+    match h.toNat?, c.toNat? with
+    | some h, some c => s!"ok {effectiveVersion h c}"
+    | _, _ => "bad-args"
   | ["rdobj", hex, pos, lens] =>
     match bytesOfHex hex, pos.toNat?, parseLens lens with
     | some inp, some p, some tbl =>
